@@ -19,6 +19,10 @@ CLAIMED = {
   text="Unbounded deductive proof of the queue invariant ENQ = DEL ++ inflight(waiter) ++ buffer over every atomic segment of __init__/enqueue/finish/cancel/__anext__ (incl. every resumption case of the await: value, finish reason, consumer cancelled while pending, consumer cancelled after the element was handed over); producer interference at the await is a havoc up to the invariant (rely) and every producer operation is proved to guarantee that rely. Exactly-once in-order delivery, finish-reason and enqueue-after-finish clauses are postconditions.",
   note="Trusted: S4 (single event loop, atomic segments), T-FUT future state machine incl. late cancellation, T-COLL deque; single consumer (the source's own assert) is the precondition.",
   ref="DESIGN.md 4 (C17), Appendix B.3"),
+ "C16": dict(
+  text="Deductive proof on the real __call__ and its three closures: the wiring (task runs the function with the caller's arguments, timer armed with the configured timeout, completion/result callbacks registered, caller awaits the result future) is checked at the first suspension; every loop event (task done with any outcome, timer fires, result future done) is simulated from an arbitrary state satisfying the invariant by executing the real closure, proving: no callback raises, a completed task always completes the result future with its own value / exception object / cancellation, the timer only fails a pending future with TimeoutError, the function task is cancelled once the future is done, and the invariant 'future pending => timer armed and completion not yet run' is preserved. The caller is resumed in every way T-FUT allows.",
+  note="Trusted: T-FUT, T-TIMER, S4. Termination ('always terminates', 'at the deadline') is a paper step from the proved invariant + T-TIMER/T-FUT; 'leaves nothing running' additionally assumes the function reacts to cancellation.",
+  ref="DESIGN.md 4 (C16)"),
 }
 
 ALL = [f"C{i:02d}" for i in range(1, 21)]
